@@ -493,6 +493,30 @@ def explore_mtime(ctx, rng, stats, violations, disagreements):
             violations.append({"property": "C12", "what": "PathSource(required=True) on a missing path did not raise", "witness_case": {"kind": "sources"}})
         except OSError:
             pass
+    # a stored file whose modified time is an unusual one - the Unix epoch itself, just around it, far in the past / future: a value
+    # IS stored, so get_modified_time is not None and is that time
+    import pathlib
+    for cls_name, value in (("BinaryFileStore", b"x"), ("TextFileStore", "x"), ("JsonFileStore", [1]), ("PickleFileStore", 1), ("TouchFileStore", None)):
+        for ns in (0, 400, -1, 1_000_000_000, -86400 * 10 ** 9 * 365 * 30, 4 * 10 ** 18):
+            for use_pathlib in (False, True):
+                with sc.scratch_dir("c12") as d:
+                    p = os.path.join(d, "value")
+                    st = sc.make_store(cls_name, pathlib.Path(p) if use_pathlib else p)
+                    st.write(value)
+                    try:
+                        os.utime(p, ns=(ns, ns))
+                    except (OSError, OverflowError):
+                        continue
+                    got = st.get_modified_time()
+                    stats["unusual_mtimes"] = stats.get("unusual_mtimes", 0) + 1
+                    if got is None:
+                        violations.append({"property": "C12", "what": f"{cls_name}: a value is stored and the file's modified time is {ns} ns after the "
+                                           f"epoch, but get_modified_time() is None", "witness_case": {"kind": "unusual-mtime"}})
+                        break
+            if violations:
+                break
+        if violations:
+            break
     if ctx.driver is not None:
         for (w, obs), reply in zip(pend, ctx.driver.batch(lines)):
             model = []
@@ -844,6 +868,13 @@ def replay(ctx, payload):
         if w.get("kind") == "mtime":
             found, _, _ = run_mtime(w)
             return "; ".join(found) if found else None
+        if w.get("kind") == "unusual-mtime":
+            class Q:
+                tier, driver = "quick", None
+            vv, st2 = [], {"mtime_sequences": 0, "mtime_steps": 0, "back_to_back_writes": 0, "model_comparisons": 0}
+            explore_mtime(Q, random.Random(0), st2, vv, [])
+            vv = [x for x in vv if x.get("witness_case", {}).get("kind") == "unusual-mtime"]
+            return vv[0]["what"] if vv else None
         if w.get("kind") in ("cycle", "touch-missing", "touch-nonempty"):
             # the fixed cases at the end of explore_values (a list that contains itself, shared sub-objects, touch files)
             class Q:
